@@ -200,6 +200,23 @@ func Generate(family string, seed int64, idx int) Scenario {
 		p.ApplyDelayMs, p.PersistDelayMs, p.RestoreDelayMs = 0, 0, 0
 		sc.Clients = 0
 		sc.Script = family
+	case "longstale":
+		// C12: the servers that can still talk are a deposed leader with a long uncommitted suffix
+		// and a follower with a shorter log that ends in a newer term; the newer leader stays down
+		p := &sc.P
+		p.Voters, p.NonVoters, p.Spares = pick(r, 3, 3, 5), 0, 0
+		p.PreVoteOff = make([]bool, p.N())
+		if r.Intn(2) == 0 {
+			for i := range p.PreVoteOff {
+				p.PreVoteOff[i] = true
+			}
+		}
+		p.ShutdownOnRemove = false
+		p.RestoreCommitted = false
+		p.SnapThreshold = 8192
+		p.MaxAppend = pick(r, 1, 4, 64)
+		sc.Clients = 0
+		sc.Script = "longstale"
 	case "snapterm":
 		// C04/C11: a server restores a snapshot, snapshots again before any command reaches its FSM,
 		// becomes leader and has to probe a follower exactly at its snapshot boundary
@@ -369,6 +386,11 @@ func genPreVote(r *rand.Rand, sc *Scenario) {
 	p.ShutdownOnRemove = false
 	mixed := r.Intn(3) == 0
 	sc.WAnyNode = 10
+	if r.Intn(2) == 0 {
+		// a quiet cluster: the isolated server's log does not fall behind, so only the
+		// "we have a leader" rule stands between its pre-vote and an election
+		sc.Clients = 0
+	}
 	t := 4 * p.HeartbeatMs
 	for i := 0; i < 1+r.Intn(3); i++ {
 		k := 1
@@ -403,6 +425,12 @@ func genPreVote(r *rand.Rand, sc *Scenario) {
 		}
 		sc.Steps = append(sc.Steps, Step{At: t, Act: "pv-isolate", N: iso})
 		t += p.ElectionMs * (1 + r.Intn(60))
+		if r.Intn(2) == 0 {
+			// the links come back one direction at a time: for a while the isolated servers can
+			// ask (and are answered) but still hear nothing from the leader
+			sc.Steps = append(sc.Steps, Step{At: t, Act: "pv-asym", N: iso})
+			t += p.ElectionMs * (2 + r.Intn(4))
+		}
 		sc.Steps = append(sc.Steps, Step{At: t, Act: "heal"})
 		t += 5 * p.ElectionMs
 		sc.Steps = append(sc.Steps, Step{At: t, Act: "pv-check"})
